@@ -227,7 +227,11 @@ def parse_tuple(tuple_item_types: tuple[type[T], ...]) -> Callable[[list[T]], tu
         logger.debug(f"Parsing a Tuple with item types {tuple_item_types}, raw value is {val}.")
         parsing_fn_index = calls_count
 
-        if Ellipsis in tuple_item_types:
+        if Ellipsis not in tuple_item_types:
+            # The option can be passed more than once, and the parser can be used more than once:
+            # start over at the first item type once every item of the tuple was parsed.
+            parsing_fn_index = calls_count % len(tuple_item_types)
+        else:
             ellipsis_index = tuple_item_types.index(Ellipsis)
             logger.debug(f"Ellipsis is at index {ellipsis_index}")
             # If this function is being called for the 'Ellipsis' type argument
@@ -240,7 +244,12 @@ def parse_tuple(tuple_item_types: tuple[type[T], ...]) -> Callable[[list[T]], tu
 
         item_type = tuple_item_types[parsing_fn_index]
         parsing_fn = get_parsing_fn(item_type)
-        parsed_value = parsing_fn(val)
+        try:
+            parsed_value = parsing_fn(val)
+        except Exception:
+            # argparse gives up on this tuple: the next value to parse is the first item of a tuple.
+            calls_count = 0
+            raise
 
         calls_count += 1
 
